@@ -45,13 +45,23 @@ def run(case):
         if k == 'classify':
             r = util.classify_host(fp(case['s']))
             return {'res': jv.to_plain(str(r)), 'type': type(r).__name__}
+        def host_of(case):
+            h = fp(case['host'])
+            if case.get('hostobj'):
+                # the host handed over as an ipaddress object (what a transport's peer name is turned into) rather than as text
+                import ipaddress as _ip
+                try:
+                    return _ip.ip_address(h)
+                except ValueError:
+                    return h
+            return h
         if k == 'netaddr':
-            a = util.NetAddress(fp(case['host']), case['port'])
+            a = util.NetAddress(host_of(case), case['port'])
             text = str(a)
             b = util.NetAddress.from_string(text)
             return {'text': jv.to_plain(text), 'equal': a == b}
         if k == 'service':
-            a = util.Service(case['proto'], util.NetAddress(fp(case['host']), case['port']))
+            a = util.Service(case['proto'], util.NetAddress(host_of(case), case['port']))
             text = str(a)
             b = util.Service.from_string(text)
             return {'text': jv.to_plain(text), 'equal': a == b}
@@ -132,6 +142,8 @@ class C18(Prop):
         tp = jv.to_plain
         return [{'kind': 'host', 's': tp('example.com\n')}, {'kind': 'host', 's': tp('K.com')}, {'kind': 'proto', 's': tp('t,p')},
                 {'kind': 'proto', 's': tp('tcp\n')}, {'kind': 'netaddr', 'host': tp('fe80::1%]'), 'port': 80},
+                {'kind': 'netaddr', 'host': tp('::ffff:1.2.3.4'), 'port': 80, 'hostobj': True}, {'kind': 'service', 'proto': 'tcp', 'host': tp('::ffff:10.0.0.1'), 'port': 1, 'hostobj': True},
+                {'kind': 'netaddr', 'host': tp('::1.2.3.4'), 'port': 80, 'hostobj': True}, {'kind': 'netaddr', 'host': tp('1.2.3.4'), 'port': 80, 'hostobj': True},
                 {'kind': 'host', 's': tp('a' * 63 + '.' + 'b' * 63)}, {'kind': 'port', 'p': tp('٨٠')}, {'kind': 'port', 'p': tp('²')}]
 
     def generate(self, rng, n, tier):
@@ -170,11 +182,17 @@ class C18(Prop):
                 host = rng.choice(['example.com', 'a', 'a-b.c_d', '3com.com', '163.com', '9gag', '1a', '0.a', '12Foo.Bar.Bax_', '192-168-1-1.dyn.example.net', '1.2.3.4', '255.0.0.1', '::1', '2001:db8::1', 'fe80::1%eth0', 'fe80::1%]',
                                    'fe80::1%a]:1', '::ffff:1.2.3.4', 'fe80::1%[', 'x' * 63 + '.y', 'localhost.',
                                    'fe80::1%wlan\n0', 'fe80::1%a\rb', 'fe80::1%\x85', 'fe80::1%\u2028x', 'fe80::1%a b', 'fe80::1%\t'])
+                if rng.random() < 0.3:
+                    # IPv6 addresses that embed an IPv4 address, and their neighbours
+                    v4 = '%d.%d.%d.%d' % tuple(rng.choice([0, 1, 10, 127, 192, 255, rng.randrange(256)]) for _ in range(4))
+                    host = rng.choice(['::ffff:' + v4, '::' + v4, '::ffff:0:' + v4, '64:ff9b::' + v4, '::fffe:' + v4, '::1:ffff:' + v4, '2002:' + v4.replace('.', ':') + '::1',
+                                       '::ffff:' + v4 + '%eth0'])
                 port = rng.choice([1, 80, 65535, rng.randrange(1, 65536)])
+                hostobj = rng.random() < 0.4
                 if rng.random() < 0.5:
-                    yield {'kind': 'netaddr', 'host': tp(host), 'port': port}
+                    yield {'kind': 'netaddr', 'host': tp(host), 'port': port, 'hostobj': hostobj}
                 else:
-                    yield {'kind': 'service', 'proto': rng.choice(['tcp', 'SSL', 'ws', 'Ftp.-x+']), 'host': tp(host), 'port': port}
+                    yield {'kind': 'service', 'proto': rng.choice(['tcp', 'SSL', 'ws', 'Ftp.-x+']), 'host': tp(host), 'port': port, 'hostobj': hostobj}
 
     def run_impl(self, case):
         return run(case)
